@@ -89,17 +89,34 @@ func TestC05(t *testing.T) {
 	}
 	var replies bytes.Buffer // exported to the PAM module check: verdict + reply bytes
 	exported := map[string]bool{}
-	handle := func(s []byte, frags []int, eofWith, stall bool, oc cbOutcome) {
-		calls := 0
-		var gotArgs [4]string
-		srv := &Server{cb: func(l, p, sv, r string) (bool, string, error) {
-			calls++
-			gotArgs = [4]string{l, p, sv, r}
-			if oc.err {
-				return oc.ok, cbMessage(oc.msgLen), errors.New(cbMessage(oc.msgLen))
+	// one callback state per server; a server may be shared by a sequence of connections
+	type srvState struct {
+		srv     *Server
+		calls   int
+		gotArgs [4]string
+		oc      cbOutcome
+	}
+	newSrv := func() *srvState {
+		st := &srvState{}
+		st.srv = &Server{cb: func(l, p, sv, r string) (bool, string, error) {
+			st.calls++
+			st.gotArgs = [4]string{l, p, sv, r}
+			if st.oc.err {
+				return st.oc.ok, cbMessage(st.oc.msgLen), errors.New(cbMessage(st.oc.msgLen))
 			}
-			return oc.ok, cbMessage(oc.msgLen), nil
+			return st.oc.ok, cbMessage(st.oc.msgLen), nil
 		}}
+		return st
+	}
+	var shared *srvState // non-nil: handle the next connection on this (used) server
+	history := ""
+	handle := func(s []byte, frags []int, eofWith, stall bool, oc cbOutcome) {
+		st := shared
+		if st == nil {
+			st = newSrv()
+		}
+		st.calls, st.gotArgs, st.oc = 0, [4]string{}, oc
+		srv := st.srv
 		conn := &scriptConn{r: &fragReader{data: append([]byte{}, s...), frags: append([]int{}, frags...), eofWithData: eofWith}, stall: stall}
 		func() {
 			defer func() {
@@ -109,9 +126,10 @@ func TestC05(t *testing.T) {
 			}()
 			srv.handleConnection(conn)
 		}()
+		calls, gotArgs := st.calls, st.gotArgs
 		ev.Add("evaluations", 1)
 		want, _, werr := refDecodeRequest(s)
-		desc := fmt.Sprintf("stream %x delivered as reads %v (EOF with data %v, client stalls %v), callback outcome ok=%v err=%v message %d bytes", head(s), frags, eofWith, stall, oc.ok, oc.err, oc.msgLen)
+		desc := history + fmt.Sprintf("stream %x delivered as reads %v (EOF with data %v, client stalls %v), callback outcome ok=%v err=%v message %d bytes", head(s), frags, eofWith, stall, oc.ok, oc.err, oc.msgLen)
 		rp := map[string]any{"stream": s, "fragments": frags, "eof_with_data": eofWith, "stall": stall, "callback": fmt.Sprint(oc)}
 		if calls > 1 {
 			ev.Violation("callback-called-more-than-once", desc, rp)
@@ -212,10 +230,40 @@ func TestC05(t *testing.T) {
 			}
 		}
 	}
+	// ---- histories: the result for a connection does not depend on what the SAME server
+	//      instance handled before (approved, refused, failing or undecodable requests)
+	valid := refEncodeParts("alice", "secret", "imap", "")
+	preds := []struct {
+		name string
+		s    []byte
+		oc   cbOutcome
+	}{
+		{"after an approved request", valid, cbOutcome{true, false, 3}},
+		{"after a refused request", valid, cbOutcome{false, false, 3}},
+		{"after a request failing with an error", valid, cbOutcome{true, true, 3}},
+		{"after an undecodable stream", valid[:7], cbOutcome{true, false, 3}},
+		{"after an approved request with a long message", valid, cbOutcome{true, false, 252}},
+	}
+	for _, pr := range preds {
+		for _, s := range streams {
+			for _, oc := range []cbOutcome{{true, false, 3}, {false, false, 0}, {true, true, 1}, {false, false, 253}} {
+				shared = newSrv()
+				history = ""
+				handle(pr.s, []int{len(pr.s)}, false, false, pr.oc)
+				history = "[same server, " + pr.name + "] "
+				handle(s, []int{len(s)}, false, false, oc)
+				// and a third connection
+				history = "[same server, third connection " + pr.name + "] "
+				handle(valid, []int{3, len(valid) - 3}, true, false, cbOutcome{false, false, 2})
+			}
+		}
+	}
+	shared, history = nil, ""
 	os.WriteFile(scratchFile("goreplies.bin"), replies.Bytes(), 0600) //nolint:errcheck
 	ev.Set("replies_exported_to_pam_check", len(exported))
 	ev.Sample(map[string]any{"streams": len(streams), "callback_outcomes": len(outcomes), "example_stream": fmt.Sprintf("%x", streams[40])})
-	ev.Rule = fmt.Sprintf("%d client byte streams (all requests with field lengths {0,1,2} over {a,NUL} cut at every byte and with trailing bytes; length prefixes 256/257/65535 in each position) x %d callback outcomes (ok x error x message lengths 0..70000 incl. NUL/newline) for one-piece delivery; for a positive and a negative callback every composition into reads (<= %d bytes), EOF with/after data, stalling client, zero-length reads; distinct = distinct (decodable, callback calls, callback outcome, reply length)",
+	ev.Set("server_histories", len(preds)*len(streams)*4)
+	ev.Rule = fmt.Sprintf("%d client byte streams (all requests with field lengths {0,1,2} over {a,NUL} cut at every byte and with trailing bytes; length prefixes 256/257/65535 in each position) x %d callback outcomes (ok x error x message lengths 0..70000 incl. NUL/newline) for one-piece delivery; for a positive and a negative callback every composition into reads (<= %d bytes), EOF with/after data, stalling client, zero-length reads; every stream x 4 callback outcomes as the SECOND connection of a server instance after each of 5 predecessor connections (approved / refused / error / undecodable / long message), plus a third connection; distinct = distinct (decodable, callback calls, callback outcome, reply length)",
 		len(streams), len(outcomes), fragLimit)
 	ev.Finish()
 }
